@@ -106,7 +106,19 @@ type executor struct {
 // result in an orderly execution of the individual stages.
 //
 // 5. We can now construct the output data model of the workflow.
-func (e *executor) Prepare(workflow *Workflow, workflowContext map[string][]byte) (ExecutableWorkflow, error) {
+func (e *executor) Prepare(workflow *Workflow, workflowContext map[string][]byte) (result ExecutableWorkflow, err error) {
+	// Preparation runs schema code of the SDK on what the workflow author wrote; a panic raised in there
+	// (for example by an inconsistent input scope) is reported as an invalid workflow.
+	defer func() {
+		if r := recover(); r != nil {
+			result = nil
+			err = &ErrInvalidWorkflow{fmt.Errorf("panic while preparing the workflow (%v)", r)}
+		}
+	}()
+	return e.prepare(workflow, workflowContext)
+}
+
+func (e *executor) prepare(workflow *Workflow, workflowContext map[string][]byte) (ExecutableWorkflow, error) {
 	dag := dgraph.New[*DAGItem]()
 	if _, err := dag.AddNode(WorkflowInputKey, &DAGItem{
 		Kind: "input",
